@@ -152,8 +152,8 @@ inline bool mutate(std::vector<OutPdu> &r, int mut, int pos, int ver, const std:
 		bool in_resp = false;
 		for (size_t i : pay) if (r[i].id == id && r[i].flags == 1) in_resp = true;
 		bool was_held = !reset_query && held.count(id);
-		if (!in_resp && !was_held) insert_at(n - 1, p); // announce twice
-		insert_at(n - 1 + ((!in_resp && !was_held) ? 1 : 0), p);
+		if (!in_resp && !was_held) insert_at(r.size() - 1, p); // announce twice
+		insert_at(r.size() - 1, p);
 		return true;
 	}
 	case M_WITHDRAW_UNKNOWN: {
